@@ -24,9 +24,15 @@ def run(ctx):
     quick = ctx.tier == "quick"
     rnd = random.Random(ctx.seed)
     cfg = dict(lit=LIT if not quick else LIT, shapes=["call", "strbrace", "dictlit", "multiline", "strdollar", "samecall", "strent"] if quick else list(IC.SHAPES)[:9] + ["multiline", "samecall", "strent"],
-               contexts=["textmode"], maxparts=3 if quick else 4, maxdol=2 if quick else 3, maxstack=0)
+               contexts=["textmode"], maxparts=3, maxdol=2 if quick else 3, maxstack=0)
+    # (four parts over the full alphabet are 8 * 10^5 records of a kilobyte: texts of four parts come over smaller alphabets)
     recs = IC.run_spec(ctx, "InterpTextMode", cfg)
     IC.replay(ctx, recs, "textmode")
+    if not quick:
+        cfg = dict(lit=["lt", "amp", "lb", "rb", "nl", "x"], shapes=["call", "strbrace", "strent", "multiline"], contexts=["textmode"],
+                   maxparts=4, maxdol=2, maxstack=0)
+        recs = IC.run_spec(ctx, "InterpTextMode4", cfg)
+        IC.replay(ctx, recs, "textmode4")
     # longer texts over a small alphabet: the same expression text more than once, '$' runs at line ends
     cfg = dict(lit=["nl", "x", "lt"], shapes=["call", "samecall"], contexts=["textmode"], maxparts=4, maxdol=2 if quick else 3, maxstack=0)
     recs = IC.run_spec(ctx, "InterpTextMode2", cfg)
